@@ -417,6 +417,44 @@ func genC13(repo string) (string, error) {
 	}
 	fmt.Fprintf(&sb, "def findMatchBody : List String := %s\n", LeanStrList(txt))
 
+	// ---- interval ladder validation, segment directory, interval text, time windows
+	for _, f := range []struct{ recv, name, lean string }{
+		{"Intervals", "IsValid", "isValidBody"}, {"DatabaseOption", "Validate", "validateBody"},
+	} {
+		txt, err = bodyText(ofset, FindFunc(of, f.recv, f.name))
+		if err != nil {
+			return "", fmt.Errorf("%s.%s: %w", f.recv, f.name, err)
+		}
+		fmt.Fprintf(&sb, "def %s : List String := %s\n", f.lean, LeanStrList(txt))
+	}
+	ffset, ff, err := ParseFile(repo, "tsdb/files.go")
+	if err != nil {
+		return "", err
+	}
+	for _, n := range []string{"ShardIntervalSegmentPath", "ShardSegmentPath"} {
+		txt, err = bodyText(ffset, FindFunc(ff, "", n))
+		if err != nil {
+			return "", fmt.Errorf("%s: %w", n, err)
+		}
+		fmt.Fprintf(&sb, "def %sBody : List String := %s\n", strings.ToLower(n[:1])+n[1:], LeanStrList(txt))
+	}
+	for _, f := range []struct{ recv, name, lean string }{
+		{"Interval", "String", "intervalStringBody"}, {"Interval", "ValueOf", "intervalValueOfBody"},
+	} {
+		txt, err = bodyText(ivfset, FindFunc(iv, f.recv, f.name))
+		if err != nil {
+			return "", fmt.Errorf("%s.%s: %w", f.recv, f.name, err)
+		}
+		fmt.Fprintf(&sb, "def %s : List String := %s\n", f.lean, LeanStrList(txt))
+	}
+	for _, recv := range []string{"day", "month", "year"} {
+		txt, err = bodyText(icfset, FindFunc(ic, recv, "CalcTimeWindows"))
+		if err != nil {
+			return "", fmt.Errorf("%s.CalcTimeWindows: %w", recv, err)
+		}
+		fmt.Fprintf(&sb, "def %sCalcTimeWindowsBody : List String := %s\n", recv, LeanStrList(txt))
+	}
+
 	// ---- family range construction on the write path and in the broker iterator
 	sfset, sf, err := ParseFile(repo, "tsdb/segment.go")
 	if err != nil {
